@@ -95,7 +95,7 @@ def run_case(case):
                         clusters={"c": env.fs_backend(sc.path("c%d" % si), cache_mb=cache)})
             batch_mode = bool(si % 4 >= 2)
 
-            def invoke_root():
+            def invoke_root_here():
                 f = fn_of(root)
                 try:
                     if batch_mode:
@@ -104,6 +104,17 @@ def run_case(case):
                         f(tid, 0)
                 except Exception:
                     pass
+
+            def invoke_root():
+                if si % 4 == 1:  # the whole tree is evaluated by a worker thread (not the thread that imported the functions)
+                    import threading
+
+                    t = threading.Thread(target=invoke_root_here)
+                    t.start()
+                    t.join()
+                    out["obs"]["runs_on_a_worker_thread"] += 1
+                else:
+                    invoke_root_here()
 
             invoke_root()
             # records right after the cold run (nothing was memoized beforehand)
